@@ -239,6 +239,40 @@ func Scenarios() []*Scenario {
 		gen.Must(s.U.Issue(s.KSame, s.F1, big.NewInt(500)), "fund contract")
 		return node.Call{Func: FBurn, Caller: s.KSame, Recipient: gen.SysSC, Args: [][]byte{s.F1, gen.Big(5)}, GasLocked: 4}
 	})
+	// the WHOLE holding leaves, from an entry that went through a freeze / un-freeze cycle (its
+	// properties are then present and 00 00) and from one that did not: the entry is deleted
+	cycle := func(s *Scn, who []byte, id []byte) {
+		s.U.Freeze(who, id)
+		s.U.UnFreeze(who, id)
+	}
+	for _, cyc := range []bool{false, true} {
+		cyc := cyc
+		nm := map[bool]string{false: "", true: "-after-freeze-cycle"}[cyc]
+		xf("transfer/same-all"+nm, false, "ESDTTransfer", func(s *Scn) node.Call {
+			if cyc {
+				cycle(s, s.A, s.F1)
+			}
+			return s.Xfer("T", s.A, s.Same, "F")
+		})
+		xf("transfer/cross-snd-all"+nm, false, "ESDTTransfer", func(s *Scn) node.Call {
+			if cyc {
+				cycle(s, s.A, s.F1)
+			}
+			return s.Xfer("T", s.A, s.Other, "F")
+		})
+		xf("burn/user-all"+nm, false, "ESDTBurn", func(s *Scn) node.Call {
+			if cyc {
+				cycle(s, s.A, s.F1)
+			}
+			return node.Call{Func: FBurn, Caller: s.A, Recipient: gen.SysSC, Args: [][]byte{s.F1, s.U.Balance(s.A, s.F1, 0).Bytes()}}
+		})
+		if cyc {
+			xf("localburn/all"+nm, false, "ESDTLocalBurn", func(s *Scn) node.Call {
+				cycle(s, s.A, s.F1)
+				return gen.SelfCall(FLocalBurn, s.A, 0, s.F1, s.U.Balance(s.A, s.F1, 0).Bytes())
+			})
+		}
+	}
 	xf("localmint", false, "ESDTLocalMint", func(s *Scn) node.Call { return gen.SelfCall(FLocalMint, s.A, 0, s.F1, gen.Big(77)) })
 	xf("localburn", false, "ESDTLocalBurn", func(s *Scn) node.Call { return gen.SelfCall(FLocalBurn, s.A, 0, s.F1, gen.Big(77)) })
 	xf("localburn/all", false, "ESDTLocalBurn", func(s *Scn) node.Call { return gen.SelfCall(FLocalBurn, s.A, 0, s.F1, gen.Big(1000)) })
@@ -350,6 +384,17 @@ func Scenarios() []*Scenario {
 		nft("nftxfer/same-"+nm, false, false, func(s *Scn) node.Call { c := s.Xfer("N", s.A, s.Same, "s"); c.CallType = ct; return c })
 		nft("nftxfer/cross-snd-"+nm, false, true, func(s *Scn) node.Call { c := s.Xfer("N", s.A, s.Other, "s"); c.CallType = ct; return c })
 	}
+	// the destination already holds so much that the SUM has a longer encoding than the quantity
+	// sent (253 + 3 = 256): what is stored and what is sent differ in length
+	preHold := func(s *Scn, dst []byte) {
+		s.U.N.Exec(gen.SelfCall(FNFTAddQty, s.A, gen.BigGas, s.SFT, gen.U64(1), gen.Big(300)))
+		s.U.N.Exec(gen.NFTTransferCall(s.A, dst, s.SFT, 1, big.NewInt(253), gen.BigGas))
+		s.U.N.Exec(gen.TransferCall(s.A, dst, s.F1, big.NewInt(250), gen.BigGas))
+		s.U.N.DrainAll()
+	}
+	nft("nftxfer/same-sum-longer", false, false, func(s *Scn) node.Call { preHold(s, s.Same); return s.Xfer("N", s.A, s.Same, "s") })
+	nft("nftxfer/cross-snd-sum-longer", false, true, func(s *Scn) node.Call { preHold(s, s.Other); return s.Xfer("N", s.A, s.Other, "s") })
+	nft("nftxfer/cross-dst-sum-longer", true, true, func(s *Scn) node.Call { preHold(s, s.Other); return s.Xfer("N", s.A, s.Other, "s") })
 	nft("nftxfer/same-call", false, false, func(s *Scn) node.Call { return s.Xfer("N", s.A, s.KSame, "n", att...) })
 	nft("nftxfer/cross-snd", false, true, func(s *Scn) node.Call { return s.Xfer("N", s.A, s.Other, "s") })
 	nft("nftxfer/cross-snd-call", false, true, func(s *Scn) node.Call { return s.Xfer("N", s.A, s.KOther, "S", att...) })
@@ -388,6 +433,30 @@ func Scenarios() []*Scenario {
 		multi("multi/same-fs-"+nm, false, false, "fs", func(s *Scn) node.Call { c := s.Xfer("M", s.A, s.Same, "fs"); c.CallType = ct; return c })
 		multi("multi/cross-snd-fs-"+nm, false, true, "fs", func(s *Scn) node.Call { c := s.Xfer("M", s.A, s.Other, "fs"); c.CallType = ct; return c })
 	}
+	// every ORDER of kinds: a fungible entry after an NFT entry, NFT entries back to back, the same
+	// token listed twice
+	for _, pat := range []string{"sf", "sfnf", "nsfg", "ss", "sfs", "tsf"} {
+		pat := pat
+		multi("multi/cross-snd-order-"+pat, false, true, pat, func(s *Scn) node.Call { return s.Xfer("M", s.A, s.Other, pat) })
+		multi("multi/same-order-"+pat, false, false, pat, func(s *Scn) node.Call { return s.Xfer("M", s.A, s.Same, pat) })
+	}
+	multi("multi/cross-dst-order-sfnf", true, true, "sfnf", func(s *Scn) node.Call { return s.Xfer("M", s.A, s.Other, "sfnf") })
+	multi("multi/same-all-after-freeze-cycle", false, false, "FS", func(s *Scn) node.Call {
+		s.U.Freeze(s.A, s.F1)
+		s.U.UnFreeze(s.A, s.F1)
+		return s.Xfer("M", s.A, s.Same, "FS")
+	})
+	multi("multi/cross-snd-all-after-freeze-cycle", false, true, "FS", func(s *Scn) node.Call {
+		s.U.Freeze(s.A, s.F1)
+		s.U.UnFreeze(s.A, s.F1)
+		return s.Xfer("M", s.A, s.Other, "FS")
+	})
+	multi("multi/same-sum-longer", false, false, "sf", func(s *Scn) node.Call {
+		s.U.N.Exec(gen.SelfCall(FNFTAddQty, s.A, gen.BigGas, s.SFT, gen.U64(1), gen.Big(300)))
+		s.U.N.Exec(gen.NFTTransferCall(s.A, s.Same, s.SFT, 1, big.NewInt(253), gen.BigGas))
+		s.U.N.Exec(gen.TransferCall(s.A, s.Same, s.F1, big.NewInt(250), gen.BigGas))
+		return s.Xfer("M", s.A, s.Same, "sf")
+	})
 	multi("multi/same-fsn", false, false, "fsn", func(s *Scn) node.Call { return s.Xfer("M", s.A, s.Same, "fsn") })
 	multi("multi/same-call", false, false, "fs", func(s *Scn) node.Call { return s.Xfer("M", s.A, s.KSame, "fs", att...) })
 	multi("multi/cross-snd-f", false, true, "f", func(s *Scn) node.Call { return s.Xfer("M", s.A, s.Other, "f") })
